@@ -30,16 +30,28 @@ def check(run):
         return
     n = 8000 if run.tier == "quick" else 60000
     cases = urlcorr.wpt_cases()[:: (3 if run.tier == "quick" else 1)] + urlcorr.gen_cases(run.rng, n, hist_frac=0.6, utf8_only=True)
+    # shapes whose href is longer than the input although nothing needs encoding: the parser adds the '/', lower-cases,
+    # drops a default port ... - all limits around |input| are tried for these
+    rng = run.rng
+    tight = []
+    for _ in range(400 if run.tier == "quick" else 4000):
+        host = rng.choice(["example.com", "a.b", "EXAMPLE.com", "h", "x" * rng.randrange(1, 30), "a-b.c.d", "localhost", "1.2.3.4", "xn--a"])
+        inp = rng.choice(["http", "https", "ws", "wss", "ftp", "HTTP", "sc", "foo"]) + "://" + host + \
+            rng.choice(["", "", "", ":80", ":8080", "?q", "#f", "/", "?", "#"])
+        tight.append((inp.encode(), None, [], None))
+    ntight = len(tight)
+    cases = tight + cases
     res = urlcorr.explore(run, binp, cases, with_spec=False, types=("seqagg",))
     if res is None:
         return
     lines = []
     meta = []
-    for r in res:
+    for ri, r in enumerate(res):
         st, steps = r["seqagg"]
         inp, base, ops, _ = r["case"]
         sizes = [int(s["hrefsize"]) for s in steps if "hrefsize" in s] if st == "ok" else []
-        for L in limits_for(run.rng, inp, base, sizes):
+        lims = [len(inp) - 1, len(inp), len(inp) + 1, len(inp) + 2] if ri < ntight else limits_for(run.rng, inp, base, sizes)
+        for L in lims:
             for T in ("limagg", "limurl"):
                 lines.append(urlcorr.op_line(T, L, inp, base, ops))
                 meta.append((r["case"], L, T))
